@@ -143,7 +143,22 @@ class StrTokensEnum_(enum.Enum):
     B = ("x",)
 
 
-ENUMS = {e.__name__: e for e in (StrEnum_, IntEnum_, FloatEnum_, DecEnum_, QNameEnum_, TokensEnum_, StrTokensEnum_)}
+class MixIntEnum_(enum.IntEnum):  # enumerations with a mixin type are enumerations too
+    ONE = 1
+    NEG = -7
+
+
+class MixStrEnum_(str, enum.Enum):
+    A = "alpha"
+    B = "beta gamma"
+
+
+class MixStrEnum311_(enum.StrEnum):
+    A = "alpha"
+    T = "true"
+
+
+ENUMS = {e.__name__: e for e in (StrEnum_, IntEnum_, FloatEnum_, DecEnum_, QNameEnum_, TokensEnum_, StrTokensEnum_, MixIntEnum_, MixStrEnum_, MixStrEnum311_)}
 
 DOC_ORDER = ["int", "bool", "float", "Decimal", "datetime", "date", "time", "XmlTime", "XmlDate", "XmlDateTime", "XmlDuration", "XmlPeriod", "QName", "str"]
 
@@ -160,6 +175,8 @@ def pytypes():
 
 # value <-> JSON-able spec (so witnesses replay exactly)
 def enc(v):
+    if isinstance(v, enum.Enum):  # (before int/str: members of mixin enumerations are ints/strs too)
+        return {"e": [type(v).__name__, v.name]}
     if isinstance(v, bool) or v is None or isinstance(v, (int, str)):
         return v
     if isinstance(v, float):
@@ -277,7 +294,8 @@ def check_value(ctx, tname, jv, fmt=None, jmap=None):
     if not isinstance(s, str):
         ctx.violation(f"serialize-not-str/{tname}", f"converter.serialize({v!r}) -> {s!r}", w)
         return
-    if tname not in ("datetime", "date", "time"):
+    if tname not in ("datetime", "date", "time") and not (isinstance(v, QName) and ns_map is None and v.text.startswith("{")):
+        # (without a prefix map a qualified name is written in the documented {uri}local text form, which is no XSD lexical form)
         ok, why = lexical_ok(v, s, fmt, ns_map)
         if not ok:
             ctx.violation(f"serialized-form-invalid/{tname}", f"converter.serialize({v!r}, {kw}) = {s!r} is not a valid lexical form of the value ({why})", w)
@@ -462,12 +480,12 @@ FLOATS = [0.0, -0.0, 1.0, -1.0, 0.1, 0.5, 1e22, 1e21, 1e16, 1e15, 99999999999999
 DECIMALS = ["0", "-0", "1", "1.0", "1.50", "-1.5", "0.1", "1E+40", "1E-40", "-1.23E+5", "123456789012345678901234567890.123456789", "0E+3", "0E-7", "1E+3", "100", "0.000", "-0.0",
             "NaN", "sNaN", "Infinity", "-Infinity", "9" * 40, "0." + "0" * 30 + "1"]
 TEXT_CHARS = "ab Z09&<>\"'\t\n]]>-_.:/#éЖ中 \u0085\U0001f600́ "
-URIS = ["urn:a", "urn:b:c", "http://example.com/ns", "http://example.com/ns#frag", "http://www.w3.org/2001/XMLSchema", "http://www.w3.org/2001/XMLSchema-instance", "http://www.w3.org/XML/1998/namespace", "http://www.w3.org/1999/xlink", "x"]
-LOCALS = ["a", "local", "_x", "a-b.c", "élément", "A1", "int", "x·y"]
+URIS = ["http://my-domain.com/ns", "urn:my-app:v1", "tag:example.com,2005:ns", "urn:a", "urn:b:c", "http://example.com/ns", "http://example.com/ns#frag", "http://www.w3.org/2001/XMLSchema", "http://www.w3.org/2001/XMLSchema-instance", "http://www.w3.org/XML/1998/namespace", "http://www.w3.org/1999/xlink", "x"]
+LOCALS = ["a", "local", "_x", "a-b.c", "élément", "A1", "int", "x·y", "a\u0301b", "\u0939\u093f\u0928\u094d\u0926\u0940", "\u0e0a\u0e37\u0e48\u0e2d", "a\u203fb", "lang"]  # NameChar includes combining marks, vowel signs, U+203F
 FORMATS = {
     "datetime": ["%Y-%m-%dT%H:%M:%S", "%d/%m/%Y %H:%M:%S", "%Y%m%d%H%M%S", "%Y-%m-%dT%H:%M:%S.%f", "%Y-%m-%dT%H:%M:%S%z"],
     "date": ["%Y-%m-%d", "%d.%m.%Y", "%Y%m%d", "%m/%d/%Y"],
-    "time": ["%H:%M:%S", "%H.%M.%S", "%H:%M:%S.%f", "%H%M%S"],
+    "time": ["%H:%M:%S", "%H.%M.%S", "%H:%M:%S.%f", "%H%M%S", "%H:%M:%S%z"],
 }
 
 
@@ -661,6 +679,12 @@ def run_shard(ctx):
             if uri is None:
                 jmap = [e for e in jmap if e[0] != ""]  # a default namespace would capture an unprefixed QName: not representable
             check_value(ctx, "QName", enc(q), None, jmap)
+            if rng.random() < 0.3:
+                check_value(ctx, "QName", enc(q), None, None)  # without a prefix map the text form is {uri}local
+            if rng.random() < 0.1:
+                # the prefix xml is bound by definition, in every document and with every map
+                xl = rng.choice(["lang", "space", "base", "id"])
+                check_lexical(ctx, "QName", rng.choice([f"xml:{xl}", f" xml:{xl}", f"xml:{xl}\n"]), enc(QName(f"{{http://www.w3.org/XML/1998/namespace}}{xl}")), None, [e for e in rand_map(rng) if e[0] != "xml"])
             # lexical direction: choose a prefix bound to the uri in a map we control
             if uri:
                 pfx = rng.choice(["p", "ns0", "xs", "é"])
@@ -704,8 +728,10 @@ def run_shard(ctx):
             elif kind == "date":
                 v = dt.date(y, mo, d)
             else:
-                v = dt.time(h, mi, s_, us)
+                v = dt.time(h, mi, s_, us, tzinfo=dt.timezone(dt.timedelta(minutes=rng.choice([0, 60, -330, 840]))) if "%z" in fmt else None)
             check_value(ctx, kind, enc(v), fmt)
+            # surrounding whitespace is not part of the value, with or without a format
+            check_lexical(ctx, kind, rng.choice([" ", "\n", "\t "]) + v.strftime(fmt) + rng.choice(["", " ", "\r\n"]), enc(v), fmt)
         else:
             pool = rng.sample(DOC_ORDER, rng.randrange(2, 6))
             pool = [t for t in pool if t not in ("datetime", "date", "time")] or ["int", "str"]
